@@ -115,6 +115,10 @@ func newResult(t reflect.Type, opts resultOptions) (result, error) {
 				return nil, newErrInvalidInput(fmt.Sprintf(
 					"flatten can be applied to slices only: %v is not a slice", t), nil)
 			}
+			if rg.Type != t {
+				return nil, newErrInvalidInput(fmt.Sprintf(
+					"cannot use dig.As with a flattened value group: %v is flattened into group %q", t, g.Name), nil)
+			}
 			rg.Type = rg.Type.Elem()
 		}
 		return rg, nil
